@@ -127,10 +127,10 @@ CLAIMS = {
    text="Proved by byte-level symbolic execution of make_delegate_key_lock on the VM model (27 instructions, big-step rules per instruction) for every root key, certificate fields, certificate signature, final signature, cache, timestamp, clock, slack threshold, limits and (arbitrary) crypto parameters, no signature-extension plugin: "
         "the run ends with exactly delegateSpec - an error unless t is accepted against begin, not accepted against end, and the certificate signature verifies under the root over (delegate || begin || end || may); then exactly the C02 verdict of the final signature under the delegate key (delegateKeyLock_run); "
         "hence the lock accepts [pack c, sig] iff c.begin <= t < c.end, t is not ahead of the clock by the slack or more, c is signed by the root key, and sig passes C02 under c.delegate (delegateKeyLock_accepts_iff / _accepts_cert, using C16.1 and window_iff). "
-        "Chain lock, one level at a time (the body of its recursive def 0, executed symbolically in *any* activation): a level ends in an error unless its certificate is inside its window and is signed by the level's authorizing key (chainLevel_run); with a false marker / non-delegable certificate it then ends with exactly the C02 verdict of the next item under the certificate's delegate key (chainLevel_final); with a delegable certificate and the witness's true marker it is exactly CALL 0 on the stack delegate :: rest - the next level, authorized by this certificate's delegate key (chainLevel_delegates). Serialisation: unpack(pack(c)) = c and |pack(c)| = 105 for every 32-byte delegate key, begin / end below 2^32, either may-delegate flag and every 64-byte signature (cert_pack_unpack, cert_may_byte). "
+        "Chain lock, chains of EVERY length (Props/C14Locks.lean, induction on the certificate list through OP_DEF / OP_CALL, threading the function heap, the definition tables copied at each IF entry and the call counter): make_delegate_key_chain_lock(root, flags), run in the lock script's top frame on the stack cert_1 :: marker_1 :: ... :: cert_n :: marker_n :: sig :: st, ends with exactly chainSpec (chainLock_run / chainLock_run_top / chain_call) - the first certificate that is outside its window or not signed by the key authorizing it (the root for cert_1, the previous certificate's delegate key afterwards) ends the run in an error, otherwise the outcome is the C02 specification of sig under the last delegate key; so the lock leaves true iff every link passes and the final signature is C02-valid under the last delegate key (chainLock_accepts_iff, chainSpec_ok_iff). Resource hypotheses: n more calls fit under the call limit, five free stack slots, 105-byte items allowed. The levels themselves (the body of the recursive def 0, executed symbolically in *any* activation): a level ends in an error unless its certificate is inside its window and is signed by the level's authorizing key (chainLevel_run); with a false marker / non-delegable certificate it then ends with exactly the C02 verdict of the next item under the certificate's delegate key (chainLevel_final); with a delegable certificate and the witness's true marker it is exactly CALL 0 on the stack delegate :: rest - the next level, authorized by this certificate's delegate key (chainLevel_delegates). Serialisation: unpack(pack(c)) = c and |pack(c)| = 105 for every 32-byte delegate key, begin / end below 2^32, either may-delegate flag and every 64-byte signature (cert_pack_unpack, cert_may_byte). "
         "Tie and exactness on the implementation: Certificate.pack / unpack and the bytes of both lock builders vs the model's; the acceptance condition of both locks is judged on the implementation alone by an independent oracle "
         "(per-link signer, begin <= t < end, clock slack, may-delegate on every non-final link, final delegate signs the sigfields) over chains of length 1..6, all window boundaries (t = begin, end-1, end), all may-delegate patterns, every single-field corruption and cross-chain splices; every run is also executed on the model VM.",
-   note="the chain lock is proved level by level (per-link signer, window, delegability, final signature); the composition of the levels through DEF / CALL (function heap, call counters) into one statement about a whole chain is not done in Lean - whole chains are decided by the oracle + model correspondence. The single-certificate theorem assumes the resource side conditions it states (105-byte items fit, 6 stack slots) and a 105-byte certificate; other lengths end in the SPLIT / CHECK_SIG_STACK errors exercised by the correspondence.",
+   note="the chain theorem assumes the lock's own continue/stop decision pattern (markersOk: marker AND may-delegate byte true on every link but the last) - other patterns (a non-delegable certificate in the middle, a true marker at the end) make a level treat the next certificate as a signature or the signature as a certificate and are decided by the oracle + model correspondence; it also assumes its stated resource side conditions. The single-certificate theorem assumes the resource side conditions it states (105-byte items fit, 6 stack slots) and a 105-byte certificate; other lengths end in the SPLIT / CHECK_SIG_STACK errors exercised by the correspondence.",
    technique="Lean 4 proof (byte-level big-step symbolic execution of the lock on the VM model, refinement to the C02 pure spec and the C16 window theorem; serialisation round trip) + acceptance oracle on the implementation + differential correspondence of builder bytes and runs",
    design="§5 C14"),
  'C15': dict(
